@@ -13,6 +13,7 @@ from collections import Counter
 from core import Check, hx, run_driver
 import gen
 import gen_psbt
+import facts
 
 from embit.psbt import PSBT
 
@@ -173,6 +174,9 @@ def run(tier, seed):
               "and values, bit flips); each parsed in the three compression modes. Distinct by content.")
     c.assumptions = ["public-key validity inside keys is abstract in the theorems (KeyOps); the driver uses its own secp256k1",
                      "PSBTv2 required-locktime fields are carried as unknown keys (embit implements the fallback locktime only)"]
+    changed, err = facts.regenerate("networks")
+    if err:
+        c.broken.append(("facts", "cannot extract embit.networks.NETWORKS: " + err))
     c.build_and_audit()
     explore(c, 40 if tier == "quick" else 800, big=(tier != "quick"))
     return c.finish(search=lambda cc: explore(cc, 150, False))
